@@ -1226,8 +1226,13 @@ impl<'a> DocEval<'a> {
         if vals.is_empty() {
           return Err("no function applies (undocumented case)".into());
         }
+        let mut base = base;
         if base.abs() < 1e-6 {
-          return Err("zero base score under function_score (undocumented case)".into());
+          if self.plan.quirks == Quirks::default() {
+            return Err("zero base score under function_score (undocumented case)".into());
+          }
+          // classification models only: the engine substitutes 1.0 for a zero base score
+          base = 1.0;
         }
         let fs = match score_mode.as_str() {
           "sum" => vals.iter().sum::<f64>(),
@@ -1275,6 +1280,12 @@ impl<'a> DocEval<'a> {
     let s = self.score(&root)?.unwrap_or(1.0);
     Ok((m, s))
   }
+}
+
+/// true when no score leaf can sum three or more postings for one document, i.e. float
+/// summation order cannot make two runs of the same request differ in the last bits
+pub fn bit_reproducible(p: &Plan) -> bool {
+  p.leaves.iter().all(|l| l.len() <= 2)
 }
 
 /// does the query JSON contain score-adjusting nodes (constant/function/rank_feature/script)?
@@ -1703,6 +1714,7 @@ pub fn check_topk(
   want: usize,
   rel: f64,
   loc: &HashMap<String, (usize, usize)>,
+  strict_ties: bool,
 ) -> Result<(), TopkDiff> {
   let fpos: HashMap<&str, usize> = full.iter().enumerate().map(|(i, (id, _))| (id.as_str(), i)).collect();
   let expect_len = want.min(full.len());
@@ -1761,6 +1773,15 @@ pub fn check_topk(
     }
     let gs = full[fpos[got[i].0.as_str()]].1 as f64;
     let es = full[i].1 as f64;
+    if strict_ties && full[fpos[got[i].0.as_str()]].1.to_bits() == full[i].1.to_bits() && got[i].1.to_bits() == full[i].1.to_bits() {
+      // scores are reproducible bit for bit (no leaf sums >= 3 addends): equal scores must be
+      // resolved by (segment, doc) order, i.e. exactly as in the exhaustive list
+      return Err(TopkDiff {
+        kind: "tie-not-resolved-by-segment-doc-order".into(),
+        detail: json!({"position": i, "got": got[i], "expected": full[i], "loc_got": loc.get(&got[i].0).map(|l| [l.0, l.1]), "loc_expected": loc.get(&full[i].0).map(|l| [l.0, l.1])}),
+        only_omits_better: false,
+      });
+    }
     if !approx(gs, es, rel) {
       let min_got = got.last().map(|g| g.1 as f64).unwrap_or(f64::NEG_INFINITY);
       let omitted: Vec<Value> = full
@@ -1792,4 +1813,63 @@ pub fn check_topk(
     }
   }
   Ok(())
+}
+
+// ---------------------------------------------------------------------------------------------
+// probe: run hand-written requests against a hand-written corpus (used to reproduce minimal
+// examples of findings against the real engine):  cXX probe <file.json>
+// {"docs":[..], "layout":[n,..], "k1":1.2, "b":0.75, "body_analyzer":"default", "requests":[..]}
+// ---------------------------------------------------------------------------------------------
+
+pub fn probe_main(file: &str) -> i32 {
+  let txt = std::fs::read_to_string(file).expect("probe file");
+  let v: Value = serde_json::from_str(&txt).expect("probe json");
+  let docs = v["docs"].as_array().cloned().unwrap_or_default();
+  let layout: Vec<usize> = v["layout"].as_array().map(|a| a.iter().filter_map(|x| x.as_u64().map(|x| x as usize)).collect()).unwrap_or_else(|| vec![docs.len()]);
+  let mut batches = Vec::new();
+  let mut it = docs.into_iter();
+  for n in layout {
+    let b: Vec<Op> = it.by_ref().take(n).map(Op::Add).collect();
+    batches.push(b);
+  }
+  let rest: Vec<Op> = it.map(Op::Add).collect();
+  if !rest.is_empty() {
+    batches.push(rest);
+  }
+  let c = Corpus {
+    schema: schema_json(v["body_analyzer"].as_str().unwrap_or("default")),
+    batches,
+    k1: v["k1"].as_f64().unwrap_or(0.9) as f32,
+    b: v["b"].as_f64().unwrap_or(0.4) as f32,
+    positions: true,
+    in_memory: true,
+    dirty: false,
+  };
+  let dir = std::env::temp_dir().join(format!("verif-probe-{}", std::process::id()));
+  let built = build(&dir, &c).expect("build");
+  for req in v["requests"].as_array().cloned().unwrap_or_default() {
+    println!("REQUEST {req}");
+    match idx::search(&built.reader, req.clone()) {
+      Err(e) => println!("  error: {e:#}"),
+      Ok(res) => {
+        let p = plan(&built, &req["query"], req.get("fields"), Quirks::default());
+        for h in res.hits.iter() {
+          let exp = match (&p, built.loc.get(&h.doc_id)) {
+            (Ok(p), Some(loc)) => match DocEval::new(&built, p, loc.0, loc.1).total() {
+              Ok((m, s)) => format!("expected {s:.6} (oracle match={m})"),
+              Err(e) => format!("oracle: {e}"),
+            },
+            (Err(e), _) => format!("oracle: {e}"),
+            _ => "?".into(),
+          };
+          println!("  hit {} score {:.6}  {}", h.doc_id, h.score, exp);
+        }
+        if let Some(pr) = res.profile.as_ref() {
+          println!("  profile scored_docs={} postings_advanced={}", pr.execution.scored_docs, pr.execution.postings_advanced);
+        }
+      }
+    }
+  }
+  let _ = std::fs::remove_dir_all(&dir);
+  0
 }
